@@ -387,6 +387,7 @@ def gen_deps_enum() -> Iterator[Scn]:
     shapes = [
         [(1, 0)], [(1, 0), (2, 0)], [(1, 0), (2, 1)], [(1, 0), (2, 1), (3, 2)], [(1, 0), (2, 0), (3, 1)],
     ]
+    nth = 0
     for shape in shapes:
         for styles in itertools.product(tstyles, repeat=len(shape)):
             if len(shape) == 3 and len(set(styles)) == 1 and styles[0] != "gen":
@@ -394,7 +395,10 @@ def gen_deps_enum() -> Iterator[Scn]:
             for oc, prop, failpos in itertools.product(["ret", "exc", "timeout", "cerr"], [True, False], [0] + [s[0] for s in shape]):
                 if failpos and oc != "ret":
                     continue
-                deps = [{"id": i, "style": st, "parent": p, "cached": True, "suspend": False, "fail": i == failpos}
+                nth += 1
+                # every other enumerated graph: its async teardowns await (opened by the epilogue, after the other message moved on)
+                deps = [{"id": i, "style": st, "parent": p, "cached": True, "suspend": False, "fail": i == failpos,
+                         "csusp": nth % 2 == 0 and st in ("agen", "acm")}
                         for (i, p), st in zip(shape, styles)]
                 m1: Dict[str, Any] = {"task": "ta"}
                 if oc == "timeout":
